@@ -218,6 +218,13 @@ static void parse_table(table_t *t, const char *s, int nf) {
 }
 static const coap_dtls_cpsk_info_t *cb_ih(coap_str_const_t *hint, coap_session_t *s, void *arg) {
   (void)s; (void)arg;
+  {
+    char hh[600];
+    size_t o = 0;
+    hh[0] = 0;
+    for (size_t i = 0; i < hint->length && o + 3 < sizeof(hh); i++) o += (size_t)sprintf(hh + o, "%02x", hint->s[i]);
+    emit("c.ih:%s", hint->length ? hh : "-");
+  }
   for (int i = 0; i < t_cih.n; i++)
     if (t_cih.rows[i].al == hint->length && memcmp(t_cih.rows[i].a, hint->s, hint->length) == 0) {
       cb_cinfo.identity.s = t_cih.rows[i].b; cb_cinfo.identity.length = t_cih.rows[i].bl;
